@@ -762,6 +762,7 @@ def full_api_adjoint(rep, seed, n=80):
         ]
 
     P_ = progs()
+    n = max(n, 2 * len(P_))          # every program at least once plain and once with every intermediate consumed again
     for it in range(n):
         name, f = P_[it % len(P_)]
         D = rnd.choice([1, 2, 3, 4]); P = rnd.choice([1, 2])
@@ -786,6 +787,22 @@ def full_api_adjoint(rep, seed, n=80):
             cg = algopy.CGraph()
             fx = algopy.Function(algopy.UTPM(x.copy()))
             fy = f(fx)
+            shared = (it // len(P_)) % 2 == 1
+            if shared:
+                # every value of the program gets one more consumer, recorded AFTER the program: when the pullback of an
+                # operation runs, the adjoints of its arguments already hold contributions (a pullback must accumulate)
+                consumers = []
+                for k_, nd in enumerate(list(cg.functionList)):
+                    if nd is fy or type(nd.x).__name__ != "UTPM" or nd.x.data.dtype.kind != "f":
+                        continue
+                    consumers.append((k_, nd))
+                extra = None
+                for k_, nd in consumers[:30]:
+                    t_ = algopy.sum(nd * nd) * (0.0625 * (k_ % 5 + 1))
+                    extra = t_ if extra is None else extra + t_
+                if extra is not None:
+                    fy = fy + extra
+                sig += " with every intermediate value consumed once more"
             cg.trace_off()
             cg.independentFunctionList = [fx]; cg.dependentFunctionList = [fy]
             ybar = algopy.UTPM(numpy.array([[rnd.uniform(-1, 1) for _ in range(P)] for _ in range(D)]).reshape(fy.x.data.shape[:2] + fy.x.data.shape[2:]))
@@ -793,7 +810,13 @@ def full_api_adjoint(rep, seed, n=80):
             xbar = fx.xbar.data
             # J v by forward mode: y(x + h v) is a polynomial in h; its linear coefficient via 5-point exact-ish stencil
             hs = [-2e-3, -1e-3, 1e-3, 2e-3]
-            ys = [f(algopy.UTPM(x + h * v)).data for h in hs]
+            if shared:
+                ys = []
+                for h in hs:             # (the extended program exists as a graph only: forward replay, C05)
+                    cg.pushforward([algopy.UTPM(x + h * v)])
+                    ys.append(fy.x.data.copy())
+            else:
+                ys = [f(algopy.UTPM(x + h * v)).data for h in hs]
             Jv = (ys[0] - 8 * ys[1] + 8 * ys[2] - ys[3]) / (12 * 1e-3)
             # <xbar, v> and <ybar, Jv> as truncated polynomial products, per direction
             for p in range(P):
